@@ -302,6 +302,13 @@ def stagesOk (l : List String) : Bool :=
   idx "cancelFn" < idx "closeProgress" && idx "traverserShutdown" < idx "closeProgress" &&
   idx "closeProgress" < idx "notifyTerminated" && idx "closeErrors" < idx "notifyTerminated"
 
+/-- does the response hook run for a response of peer `p` carrying this request's id? -/
+def hookRunsFor (s : State) (p : Nat) : Bool :=
+  match GS.Generated.ReqLifecycleSpec.hookScope with
+  | .all => true
+  | .notForeign => !(s.reg == .live && p != s.peer)
+  | .tracked => s.reg == .live && p == s.peer
+
 /-- cancelRequest on a tracked request: remember the CancelRequest caller, cancel message to the
     request's peer, cancelOnError -/
 def cancelLive (s : State) (api : Bool) : State :=
@@ -336,10 +343,11 @@ def handle (s : State) (m : Msg) : State :=
       if api then { s with apiLog := s.apiLog ++ [ApiRes.cancelNotFound] } else s
     else cancelLive s api
   | .responses p st items hk =>
-    -- processResponses: filterResponsesForPeer and processExtensions (response hooks) in the order of the
-    -- source (`hooksAfterPeerFilter`); a hook error cancels the request and drops the response
+    -- processResponses: which responses reach the response hooks is taken from the source (generated
+    -- `hookScope`); a hook error cancels the request (if tracked) and drops the response; what survives
+    -- filterResponsesForPeer (request tracked, sent to the sending peer) is ingested
     let passesFilter := s.reg == .live && p == s.peer
-    let hookRuns := if GS.Generated.ReqLifecycleSpec.hooksAfterPeerFilter then passesFilter else true
+    let hookRuns := hookRunsFor s p
     if hookRuns && hk then
       if s.reg != .live then s else hookCancel s
     else if !passesFilter then s
